@@ -149,7 +149,10 @@ def legal_op(rng, m, k, weights=None, big=False):
 def illegal_op(rng, m):
     """An argument the reference refuses (C06)."""
     for _ in range(20):
-        k = rng.choice(["vote", "append_rev", "append_gap", "append_dup", "commit", "truncate"])
+        k = rng.choice(["vote", "append_rev", "append_gap", "append_dup", "append_stale", "append_stale", "commit", "truncate"])
+        if k == "append_stale" and m.last != (0, 0) and m.last[0] > 1:
+            # a stale leader: the next index, but a term below the last one
+            return {"a": "append", "es": [[m.last[0] - 1, m.last[1] + 1, "S", 1]]}
         if k == "vote" and m.vote > (1, 0):
             return {"a": "vote", "v": [m.vote[0] - 1, m.vote[1]]}
         if k == "append_rev" and m.last != (0, 0):
